@@ -126,7 +126,9 @@ def gen(rng, tier, ctx):
     vars_ = []
     for nm in names:
         size = rng.choice([0, 1, 2, 2, 3, 3]) if rng.random() < 0.1 else rng.choice([1, 2, 2, 3])
-        dom = list(dict.fromkeys(rng.randrange(len(world)) for _ in range(size)))
+        dom = [rng.randrange(len(world)) for _ in range(size)]
+        if rng.random() < 0.85:
+            dom = list(dict.fromkeys(dom))      # else: the identical object may occur twice (it is one candidate value)
         vars_.append({"name": nm, "type": rng.choice(["P", "P", "P", "Q"]), "dom": dom, "kind": rng.choice(["list", "gen"])})
     gctx = {"ref_ok": GEN.ref_ok_map(world, vars_)}
     cond = gen_fragment(rng, names, rng.randint(0, 3), gctx)
@@ -134,7 +136,7 @@ def gen(rng, tier, ctx):
     sel = rng.sample(names, rng.randint(1, nv))
     mode = "entity" if len(sel) == 1 and rng.random() < 0.5 else "set_of"
     return {"world": world, "vars": vars_, "derived": [], "cond": cond,
-            "select": [["var", n] for n in sel], "mode": mode, "family": "fragment"}
+            "select": [["var", n] for n in sel], "mode": mode, "family": "fragment", "share_terms": rng.random() < 0.3}
 
 
 def witnesses():
